@@ -3,7 +3,7 @@ EXTENDS MCSdl
 
 \* ---- thorough ----
 ThoroughSlices == <<
-  Sl("A", <<"web">>, <<"large">>, <<"east", "west">>, [s \in {"web"} |-> AllBodies], [s \in {"web"} |-> AllKinds],
+  Sl("A", <<"web">>, <<"large">>, <<"east", "west">>, [s \in {"web"} |-> AllBodies], [s \in {"web"} |-> AllKinds \cup BadKinds],
      {1, 2, 49, 50}, [c \in {"large"} |-> <<List(<<QLarge, QOdd>>)>>]),
   Sl("B", <<"api", "web">>, <<"large", "small">>, <<"east">>,
      [s \in {"api", "web"} |-> AllBodies],
